@@ -44,3 +44,57 @@ Definition oog_state (s : gstate) : gstate := {| cgas := 0; ggas := ggas s - cga
 Definition gas_inv (s : gstate) : Prop := cgas s + sum (saved s) <= ggas s.
 
 Definition init_state (limit : N) : gstate := {| cgas := limit; ggas := limit; saved := [] |}.
+
+(* ---- charge sequences of the instructions that charge more than once or depend on a size
+   (from the FuelVM gas-cost description; independent of the code).  "base" / "per unit" refer
+   to the dependent cost of the instruction:
+     CSIZ, CROO   base, then per byte of the contract's code
+     CCP          base, then per byte of max(code size, $rD)
+     LDC          base, then per byte of: mode 0 max(code size, padded $rC); mode 1 max(blob size,
+                  padded $rC); mode 2 padded $rC (nothing when $rC = 0)
+     BSIZ         base, then per byte of the blob;   BLDD  base, then per byte of max($rD, blob size)
+     CALL         base, then per byte of the padded code size, then 40 * new_storage_per_byte when the
+                  callee's balance entry for the forwarded asset is created
+     TR, MINT     fixed cost, then 40 * new_storage_per_byte when a balance entry is created *)
+From FV Require Import Vm.FlowSpec.
+Open Scope string_scope.
+Definition spec_gas_seq : list (N * cseq) := [
+  (0x30 (* CSIZ *), [(GAlways, ChBase "csiz"); (GAlways, ChDepNoBase "csiz" (XObs OCodeSize))]);
+  (0x2f (* CROO *), [(GAlways, ChBase "croo"); (GAlways, ChDepNoBase "croo" (XObs OCodeSize))]);
+  (0x2e (* CCP  *), [(GAlways, ChBase "ccp"); (GAlways, ChDepNoBase "ccp" (XMax (XObs OCodeSize) (XReg FD)))]);
+  (0x32 (* LDC  *), [(GAlways, ChBase "ldc");
+                     (GModeIs 0, ChDepNoBase "ldc" (XMax (XObs OCodeSize) (XPad8 (XReg FC))));
+                     (GModeIs 1, ChDepNoBase "ldc" (XMax (XObs OBlobSize) (XPad8Max (XReg FC))));
+                     (GAnd (GModeIs 2) (GNz (XReg FC)), ChDepNoBase "ldc" (XPad8Max (XReg FC)))]);
+  (0xba (* BSIZ *), [(GAlways, ChBase "bsiz"); (GAlways, ChDepNoBase "bsiz" (XObs OBlobSize))]);
+  (0xbb (* BLDD *), [(GAlways, ChBase "bldd"); (GAlways, ChDepNoBase "bldd" (XMax (XReg FD) (XObs OBlobSize)))]);
+  (0x2d (* CALL *), [(GAlways, ChBase "call"); (GAlways, ChDepNoBase "call" (XPad8 (XObs OCodeSize))); (GNewEntry, ChPerByte 40)]);
+  (0x3c (* TR   *), [(GAlways, ChFixed "tr"); (GNewEntry, ChPerByte 40)]);
+  (0x35 (* MINT *), [(GAlways, ChFixed "mint"); (GNewEntry, ChPerByte 40)]);
+  (* single dependent charges: base + per unit of the named operand *)
+  (0x25 (* RETD *), [(GAlways, ChDep "retd" (XReg FB))]);
+  (0x26 (* ALOC *), [(GAlways, ChDep "aloc" (XReg FA))]);
+  (0x27 (* MCL  *), [(GAlways, ChDep "mcl" (XReg FB))]);
+  (0x28 (* MCP  *), [(GAlways, ChDep "mcp" (XReg FC))]);
+  (0x29 (* MEQ  *), [(GAlways, ChDep "meq" (XReg FD))]);
+  (0x34 (* LOGD *), [(GAlways, ChDep "logd" (XReg FD))]);
+  (0x40 (* ED19 *), [(GAlways, ChDep "ed19" (XReg0is32 FD))]);
+  (0x41 (* K256 *), [(GAlways, ChDep "k256" (XReg FC))]);
+  (0x42 (* S256 *), [(GAlways, ChDep "s256" (XReg FC))]);
+  (0x4c (* SMO  *), [(GAlways, ChDep "smo" (XReg FC))]);
+  (0x60 (* MCPI *), [(GAlways, ChDep "mcpi" (XImm I12))]);
+  (0x70 (* MCLI *), [(GAlways, ChDep "mcli" (XImm I18))]);
+  (0x91 (* CFEI *), [(GAlways, ChDep "cfei" (XImm I24))]);
+  (0x93 (* CFE  *), [(GAlways, ChDep "cfe" (XReg FA))]);
+  (0xbe (* EPAR *), [(GAlways, ChDep "epar" (XReg FC))]);
+  (0x3d (* TRO  *), [(GAlways, ChFixed "tro")]);
+  (0x2c (* BURN *), [(GAlways, ChFixed "burn")])
+].
+(* storage instructions: `noop`, then micro-operations: SRW/SPLD/SRDD/SRDI one read; SRWQ reads;
+   SWW and SUPD/SUPI read then write; SWWQ (read, write) per slot; SCWQ reads then clear; SCLR
+   clear; SWRD/SWRI write.  read: read_hot/read_cold per byte of the value; write: storage_write per
+   byte of the new value, then new_storage_per_byte per byte grown; clear: storage_clear per slot *)
+Definition spec_gas_storage : list (N * sshape) := [
+  (0x37, ShReadsClear); (0x38, ShRead); (0x39, ShReads); (0x3a, ShReadWrite); (0x3b, ShReadWrites);
+  (0xc0, ShClear); (0xc1, ShRead); (0xc2, ShRead); (0xc3, ShWrite); (0xc4, ShWrite); (0xc5, ShReadWrite);
+  (0xc6, ShReadWrite); (0xc7, ShRead)].
